@@ -318,7 +318,7 @@ pub fn gen_bigfile(rng: &mut Rng, n: usize, thorough: bool) -> Vec<Case> {
     let counts: Vec<(usize, usize)> = if thorough {
         vec![(0xfeff, 3), (0xff00, 3), (0xff01, 2), (0xff20, 1), (5, 0xfffe), (5, 0xffff), (5, 0x10000), (3, 0x10010), (0xff05, 0xffff)]
     } else {
-        vec![(0xff00, 2), (4, 0xffff), (0xfeff, 1)]
+        vec![(0xff00, 2), (4, 0xffff), (0xfeff, 1), (3, 0x10003)]
     };
     for (k, (nsec, nseg)) in counts.into_iter().enumerate() {
         if k >= n.max(1) * 9 { break; }
